@@ -2,7 +2,7 @@
 import os, io, warnings
 warnings.filterwarnings("ignore")
 import numpy as np
-from molli.chem import Atom, Molecule, Structure, CartesianGeometry, ConformerEnsemble
+from molli.chem import Atom, Molecule, Structure, CartesianGeometry, ConformerEnsemble, BondType
 
 SPLIT = int(os.environ.get("XH_SPLIT", "-1"))
 NSPLIT = 16
@@ -14,7 +14,7 @@ def _mk():
     b = Molecule([Atom("O", label="O1"), Atom("H", label="H2"), Atom("H", label="H3")], name="second",
                  coords=[[0.0, 0.0, 0.0], [0.96, 0.0, 0.0], [-0.24, 0.93, 0.0]], atomic_charges=[-0.8, 0.4, 0.4])
     b.connect(0, 1)
-    b.connect(0, 2, btype=2)
+    b.connect(0, 2, btype=BondType.Aromatic)          # written as the two-letter token 'ar': a cut between the letters leaves 'a', which is no bond type
     return a, b
 
 
@@ -114,7 +114,22 @@ def h_truncate(fmt_sel: int, cut: int) -> bool:
     if c is None:
         return True
     lo, hi = last_token_span(text)
-    return judge(fmt, text[:c], content=not (lo < c < hi))
+    exempt = False
+    if lo < c < hi:
+        # a cut inside the last token leaves a file no reader can tell from an undamaged one only if what is left of the token is still a valid value
+        # of that field (a shorter number, another bond type); 'a' left of 'ar' is not, and such a file has to be rejected
+        left = text[lo:c]
+        if fmt == "mol2":
+            exempt = left in ("1", "2", "3", "am", "ar", "du", "un", "nc")
+        elif fmt == "xyz":
+            try:
+                float(left)
+                exempt = True
+            except ValueError:
+                exempt = False
+        else:
+            exempt = True                                      # the last record of this text belongs to a block molli skips
+    return judge(fmt, text[:c], content=not exempt)
 
 
 def h_line_damage(fmt_sel: int, line: int, kind: int) -> bool:
